@@ -109,6 +109,8 @@ structure St where
   ls : Nat
   lr : Bytes
   acc : List Header
+  /-- `starts_mid_line`: `window[0]` is not a line start (the carry was cut by the cap) -/
+  mid : Bool := false
 
 /-- the keyword `obj` is completed by byte `c` after the bytes `lr` (reversed) of the current
     line: the part of the line before the keyword (reversed) -/
@@ -127,7 +129,9 @@ def step (st : St) (c : Nat) : St :=
     let acc :=
       match kwEnd c st.lr with
       | some pre =>
-        if 4 ≤ (st.ls - st.base) + pre.length then
+        -- `starts_mid_line && line_start == 0`: the tail of a line that began before the window
+        if st.mid && st.ls = st.base then st.acc
+        else if 4 ≤ (st.ls - st.base) + pre.length then
           (match parseObjHeader (pre.reverse ++ kwObj) with
            | some (n, g) => pushHeader st.acc ⟨n, g, st.ls⟩
            | none => st.acc)
@@ -135,8 +139,8 @@ def step (st : St) (c : Nat) : St :=
       | none => st.acc
     { st with lr := c :: st.lr, acc := acc }
 
-def scanWindow (w : Bytes) (base : Nat) (acc : List Header) : List Header :=
-  (w.foldl step ⟨base, base, [], acc⟩).acc
+def scanWindow (w : Bytes) (base : Nat) (acc : List Header) (mid : Bool := false) : List Header :=
+  (w.foldl step ⟨base, base, [], acc, mid⟩).acc
 
 /-- the whole file as one window -/
 def scanFull (f : Bytes) : List Header := scanWindow f 0 []
@@ -152,19 +156,24 @@ def carryStart (cap : Nat) (w : Bytes) : Nat :=
   let s := lastLineStart w
   if w.length - s > cap then w.length - cap else s
 
-def scanChunkedAux (cap k : Nat) : Nat → Bytes → Bytes → Nat → List Header → List Header
-  | 0, _, _, _, acc => acc
-  | fuel + 1, rest, carry, base, acc =>
+/-- the loop of `scan_object_headers_chunked`; `fix = false` is the loop before the repair (no
+    `starts_mid_line` flag: a carry cut by the cap was scanned as if it began a line) -/
+def scanChunkedAux (fix : Bool) (cap k : Nat) : Nat → Bytes → Bytes → Nat → Bool → List Header → List Header
+  | 0, _, _, _, _, acc => acc
+  | fuel + 1, rest, carry, base, mid, acc =>
     let chunk := rest.take k
     let eof := chunk.isEmpty
     if eof && carry.isEmpty then acc
     else
       let w := carry ++ chunk
-      let acc := scanWindow w base acc
+      let acc := scanWindow w base acc (fix && mid)
       if eof then acc
       else
         let s := carryStart cap w
-        scanChunkedAux cap k fuel (rest.drop k) (w.drop s) (base + s) acc
+        let capped := decide (w.length - lastLineStart w > cap)
+        -- carry_mid_line: false after a line break, unchanged without one, true when the cap cuts
+        let mid' := capped || (mid && !(w.any isEol))
+        scanChunkedAux fix cap k fuel (rest.drop k) (w.drop s) (base + s) mid' acc
 
 def insertByOff (h : Header) : List Header → List Header
   | [] => [h]
@@ -175,10 +184,14 @@ def sortByOff (hs : List Header) : List Header := hs.foldl (fun acc h => insertB
 
 /-- the loop of `scan_object_headers_chunked` before the final sort, carry cap as a parameter -/
 def scanChunkedRaw (cap k : Nat) (f : Bytes) : List Header :=
-  scanChunkedAux cap (if k = 0 then 1 else k) (f.length + 2) f [] 0 []
+  scanChunkedAux true cap (if k = 0 then 1 else k) (f.length + 2) f [] 0 false []
 
 /-- `scan_object_headers_chunked(reader, chunk_size)` -/
 def scanChunked (k : Nat) (f : Bytes) : List Header := sortByOff (scanChunkedRaw CARRY_CAP k f)
+
+/-- the chunked scan as it was before the repair of the capped carry (regression reference) -/
+def scanChunkedOld (k : Nat) (f : Bytes) : List Header :=
+  sortByOff (scanChunkedAux false CARRY_CAP (if k = 0 then 1 else k) (f.length + 2) f [] 0 false [])
 
 /-! ### catalog search of `parse_with_recovery_options` -/
 
@@ -197,9 +210,9 @@ def ascii (s : String) : Bytes := s.toList.map Char.toNat
 
 def dec (n : Nat) : Bytes := ascii (toString n)
 
-/-- `read_object_content`: 64 KiB window at the entry's offset, from the first `"{n} 0 obj"` to the
-    first `endobj` after it -/
-def readObjectContent (f : Bytes) (num off : Nat) : Option Bytes :=
+/-- `read_object_content` before the repair: 64 KiB window at the entry's offset, from the first
+    literal `"{n} 0 obj"` anywhere in it to the first `endobj` after it (regression reference) -/
+def readObjectContentOld (f : Bytes) (num off : Nat) : Option Bytes :=
   let w := (f.drop off).take 65536
   match findSub (dec num ++ ascii " 0 obj") w 0 with
   | none => none
@@ -208,6 +221,43 @@ def readObjectContent (f : Bytes) (num off : Nat) : Option Bytes :=
     match findSub (ascii "endobj") t 0 with
     | none => none
     | some e => some (t.take e)
+
+/-- `u8::is_ascii_whitespace` (space, HT, LF, FF, CR) -/
+def isAsciiWs (c : Nat) : Bool := c = 32 || c = 9 || c = 10 || c = 12 || c = 13
+
+/-- `dict_part_len`: position of the first `stream` keyword that directly follows `>>` -/
+def dictPartGo : Nat → Bytes → Nat → Nat
+  | 0, c, _ => c.length
+  | fuel + 1, c, start =>
+    match findSub (ascii "stream") (c.drop start) 0 with
+    | none => c.length
+    | some rel =>
+      let at_ := start + rel
+      match ((c.take at_).reverse.dropWhile isAsciiWs) with
+      | 62 :: 62 :: _ => at_
+      | _ => dictPartGo fuel c (at_ + 6)
+
+def dictPartLen (c : Bytes) : Nat := dictPartGo (c.length + 1) c 0
+
+/-- `read_object_content`: the header must stand at the entry's offset itself (any spelling
+    `parse_obj_header_bytes` accepts, any generation); the text up to the first `endobj`, without
+    the stream data -/
+def readObjectContent (f : Bytes) (num off : Nat) : Option Bytes :=
+  let w := (f.drop off).take 65536
+  match findSub kwObj w 0 with
+  | none => none
+  | some k =>
+    let bs := k + 3
+    match parseObjHeader (w.take bs) with
+    | some (n, _) =>
+      if n = num then
+        match findSub (ascii "endobj") (w.drop bs) 0 with
+        | none => none
+        | some e =>
+          let c := w.take (bs + e)
+          some (c.take (dictPartLen c))
+      else none
+    | none => none
 
 def isSig (c : Bytes) : Bool := containsSub c (ascii "/Type/Sig") || containsSub c (ascii "/Type /Sig")
 
@@ -252,11 +302,12 @@ def tailCatalog (f : Bytes) : Option Nat :=
       else if digitsVal ds ≤ 4294967295 then some (digitsVal ds) else none
 
 /-- entries: (num, off, gen) ascending by number, all in use (recovery table) -/
-def findRoot (f : Bytes) (entries : List (Nat × Nat × Nat)) : Option Nat :=
+def findRootWith (fixed : Bool) (f : Bytes) (entries : List (Nat × Nat × Nat)) : Option Nat :=
+  let readObjectContent := if fixed then readObjectContent else readObjectContentOld
   -- 4b find_catalog_by_content
   let b := entries.find? fun (n, off, _) =>
     match readObjectContent f n off with
-    | some c => containsSub c (ascii "/Type /Catalog")
+    | some c => containsSub c (ascii "/Type /Catalog") || (fixed && containsSub c (ascii "/Type/Catalog"))
     | none => false
   match b with
   | some (n, _, _) => some n
@@ -292,6 +343,18 @@ def findRoot (f : Bytes) (entries : List (Nat × Nat × Nat)) : Option Nat :=
             | some c => !isSig c
             | none => false
           e.map (·.1)
+
+/-- the catalog search of `parse_with_recovery_options` -/
+def findRoot (f : Bytes) (entries : List (Nat × Nat × Nat)) : Option Nat := findRootWith true f entries
+
+/-- … before the repair of `read_object_content` / `find_catalog_by_content` (regression reference) -/
+def findRootOld (f : Bytes) (entries : List (Nat × Nat × Nat)) : Option Nat := findRootWith false f entries
+
+/-- the generation the synthesized trailer gives `/Root` -/
+def rootGen (entries : List (Nat × Nat × Nat)) (root : Nat) : Nat :=
+  match entries.find? (·.1 = root) with
+  | some (_, _, g) => g
+  | none => 0
 
 /-- `latest.insert(h.obj_num, h)` on a table kept ascending by number (the harness prints the
     `HashMap` sorted) -/
